@@ -236,29 +236,70 @@ func runDP(c *Ctx, s *Sink) {
 		s.Undecided(nil, key, 0, "function not found")
 	} else {
 		info := p.TypesInfo
-		var rs *ast.RangeStmt
+		// the loop over the other members of the class: `for _, x := range sequences[1:]` or
+		// `for i := 1; i < len(sequences); i++` with sequences[i]
+		recv := info.ObjectOf(fd.Recv.List[0].Names[0])
+		var loop ast.Stmt
+		var loopBody *ast.BlockStmt
+		var isElem func(e ast.Expr) bool
 		ast.Inspect(fd.Body, func(n ast.Node) bool {
-			if r, ok := n.(*ast.RangeStmt); ok && rs == nil {
-				if _, isSlice := ast.Unparen(r.X).(*ast.SliceExpr); isSlice {
-					rs = r
+			if loop != nil {
+				return true
+			}
+			switch r := n.(type) {
+			case *ast.RangeStmt:
+				if sl, isSlice := ast.Unparen(r.X).(*ast.SliceExpr); isSlice && rootObj(info, sl.X) == recv && r.Value != nil {
+					elem := info.ObjectOf(r.Value.(*ast.Ident))
+					loop, loopBody = r, r.Body
+					isElem = func(e ast.Expr) bool { return rootObj(info, e) == elem }
+				}
+			case *ast.ForStmt:
+				init, ok := r.Init.(*ast.AssignStmt)
+				if !ok || len(init.Lhs) != 1 || len(init.Rhs) != 1 || !isConstInt(info, init.Rhs[0], 1) {
+					return true
+				}
+				iv := rootObj(info, init.Lhs[0])
+				cond, ok := ast.Unparen(r.Cond).(*ast.BinaryExpr)
+				if !ok || cond.Op != token.LSS || rootObj(info, cond.X) != iv {
+					return true
+				}
+				if call, ok := ast.Unparen(cond.Y).(*ast.CallExpr); !ok || len(call.Args) != 1 || rootObj(info, call.Args[0]) != recv {
+					return true
+				}
+				if post, ok := r.Post.(*ast.IncDecStmt); !ok || post.Tok != token.INC || rootObj(info, post.X) != iv {
+					return true
+				}
+				loop, loopBody = r, r.Body
+				isElem = func(e ast.Expr) bool {
+					ix, ok := ast.Unparen(e).(*ast.IndexExpr)
+					return ok && rootObj(info, ix.X) == recv && rootObj(info, ix.Index) == iv
 				}
 			}
 			return true
 		})
-		if rs == nil || rs.Value == nil {
-			s.Undecided(nil, key, fd.Pos(), "no loop over sequences[1:]")
+		if loop == nil {
+			s.Undecided(nil, key, fd.Pos(), "no loop over the members of the class after the first")
 		} else {
-			elem := info.ObjectOf(rs.Value.(*ast.Ident))
+			// a local bound to the element inside the body (toMerge := sequences[i])
+			alias := map[types.Object]bool{}
+			ast.Inspect(loopBody, func(n ast.Node) bool {
+				if as, ok := n.(*ast.AssignStmt); ok && len(as.Lhs) == 1 && len(as.Rhs) == 1 && isElem(as.Rhs[0]) {
+					if o := rootObj(info, as.Lhs[0]); o != nil {
+						alias[o] = true
+					}
+				}
+				return true
+			})
 			g := buildCFG(info, fd.Body)
 			ts := &typestate{g: g, init: 0, info: info,
 				events: func(n ast.Node) []tsEvent {
 					var evs []tsEvent
-					if !(n.Pos() >= rs.Body.Pos() && n.End() <= rs.Body.End()) {
+					if !(n.Pos() >= loopBody.Pos() && n.End() <= loopBody.End()) {
 						return nil
 					}
 					visitEval(n, func(m ast.Node) {
 						if call, ok := m.(*ast.CallExpr); ok {
-							if sel, ok := call.Fun.(*ast.SelectorExpr); ok && sel.Sel.Name == "Merge" && len(call.Args) > 0 && rootObj(info, call.Args[0]) == elem {
+							if sel, ok := call.Fun.(*ast.SelectorExpr); ok && sel.Sel.Name == "Merge" && len(call.Args) > 0 && (isElem(call.Args[0]) || alias[rootObj(info, call.Args[0])]) {
 								evs = append(evs, tsEvent{kind: "merge", node: m})
 							}
 						}
@@ -272,7 +313,7 @@ func runDP(c *Ctx, s *Sink) {
 					return st, ""
 				},
 				edge: func(b *cfg.Block, succ int, st int) int {
-					if b.Kind == cfg.KindRangeLoop && b.Stmt == ast.Stmt(rs) {
+					if (b.Kind == cfg.KindRangeLoop || b.Kind == cfg.KindForLoop) && b.Stmt == loop {
 						if st == 1 || st == 3 {
 							return 3
 						}
@@ -284,7 +325,7 @@ func runDP(c *Ctx, s *Sink) {
 					return st
 				}}
 			res := ts.run()
-			s.Check(res.exitStates&(1<<3) == 0, nil, key, rs.Pos(), "every element of sequences[1:] is merged on every path", "a path of the loop skips an element of the class without merging it: its count and statistics are lost")
+			s.Check(res.exitStates&(1<<3) == 0, nil, key, loop.Pos(), "every member of the class after the first is merged on every path", "a path of the loop skips an element of the class without merging it: its count and statistics are lost")
 		}
 	}
 	// (5) write-back
